@@ -38,3 +38,25 @@ Example ex_restart_limit :
   | _ => False
   end.
 Proof. vm_compute. repeat split; reflexivity. Qed.
+
+(* a request that passes does not populate the cache: the next lookup of the same hash misses *)
+Example ex_pass_then_lookup :
+  match run_history [((fun sc _ => match sc with Recv => ARet SPass | _ => ANone end), ex_request 1000);
+                     (plain, ex_request 2000)] init with
+  | OK ([r1; r2], _) =>
+      r_flows r1 = [Recv; Hash; Pass; Fetch; Deliver; Log] /\
+      r_flows r2 = [Recv; Hash; Miss; Fetch; Deliver; Log] /\ r_cached r2 = false /\ r_xhits r2 = Some 0
+  | _ => False
+  end.
+Proof. vm_compute. repeat split; reflexivity. Qed.
+
+(* subroutines that are not defined leave no flow entry; without vcl_recv the request is looked up *)
+Example ex_absent :
+  match run_history [((fun sc _ => match sc with Recv | Hash | Log => AAbsent | _ => ANone end), ex_request 1000);
+                     ((fun sc _ => match sc with Recv | Hash | Log => AAbsent | _ => ANone end), ex_request 2000)] init with
+  | OK ([r1; r2], _) =>
+      r_flows r1 = [Miss; Fetch; Deliver] /\ r_flows r2 = [Hit; Deliver] /\ r_cached r2 = true /\
+      r_xhits r2 = Some 1 /\ length (r_trace r2) = 5
+  | _ => False
+  end.
+Proof. vm_compute. repeat split; reflexivity. Qed.
